@@ -213,7 +213,7 @@ class Exec(Engine):
                     return [(VBool(TRUE), st)]      # guard is literally false: the consequent may be meaningless
                 b = self.truthy(self.ev1(node.args[1], st), st)
                 return [(VBool(Implies(a, b)), st)]
-            if f.id in ('exists', 'forall') and self.pure:
+            if f.id in ('exists', 'forall', 'exists_str', 'forall_str') and self.pure:
                 return self.binder_call(f.id, node, st)
             if f.id == 'before' and self.pure:
                 if self.iter_state is None:
@@ -226,6 +226,14 @@ class Exec(Engine):
                 return [(self.snapshot(self.ev1(node.args[0], b), b), st)]
             if f.id in ('ev_count', 'ev_arg', 'ev_outcome', 'ev_names', 'ev_raised') and self.pure:
                 return [(self.event_query(f.id, node, st), st)]
+            if f.id == 'flags_of' and self.pure:
+                from . import flagdict
+                v = self.ev1(node.args[0], st)
+                if isinstance(v, flagdict.VFlags):
+                    return [(v, st)]
+                if isinstance(v, VRef) and isinstance(st.heap.get(v.loc), flagdict.HFlagDict):
+                    return [(flagdict.flags_value(st.heap[v.loc]), st)]
+                raise Undecided('flags_of(%r)' % (v,), node)
             if f.id == 'tb_entries' and self.pure:
                 from . import models_run
                 tb = self.ev1(node.args[0], st)
@@ -278,6 +286,11 @@ class Exec(Engine):
                 return VSeq(seq, elem)
             if isinstance(o, HIdxList):
                 return VSeq(o.idx, ('int',))
+            from . import flagdict
+            if isinstance(o, HSet):
+                return flagdict.VSetVal(o.arr)
+            if isinstance(o, flagdict.HFlagDict):
+                return flagdict.flags_value(o)
         return v
 
     def events_of(self, st):
@@ -307,6 +320,21 @@ class Exec(Engine):
         st.events.append({'name': name, 'args': {k: self.snapshot(v, st) for k, v in args.items()}, 'outcome': outcome})
 
     def ev_Dict(self, node, st):
+        if node.keys and all(k is None for k in node.keys):
+            # {**a, **b}: a NEW dict holding the same value objects as a, overridden by the entries of b
+            from . import flagdict
+            out = []
+            for vals, s in self.ev_list(node.values, st):
+                if isinstance(vals, Raised):
+                    out.append((vals, s))
+                    continue
+                if not all(isinstance(v, VRef) and isinstance(s.heap.get(v.loc), flagdict.HFlagDict) for v in vals):
+                    raise Undecided('dict unpacking of %r' % (vals,), node)
+                ref = flagdict.shallow_copy(self, vals[0], s)
+                for other in vals[1:]:
+                    flagdict.update(self, ref, s.heap[ref.loc], s.heap[other.loc], s, node)
+                out.append((ref, s))
+            return out
         keys = []
         for k in node.keys:
             if not (isinstance(k, ast.Constant) and isinstance(k.value, str)):
@@ -508,12 +536,13 @@ class Exec(Engine):
         fid = s.new_frame(s.cur)
         s.cur = fid
         vs = []
+        strs = kind.endswith('_str')
         for a in lam.args.args:
-            var = smt.bound(self.ctx, a.arg, INT)
+            var = smt.bound(self.ctx, a.arg, STR if strs else INT)
             vs.append(var)
-            s.bind(a.arg, VInt(var))
+            s.bind(a.arg, VStr(var) if strs else VInt(var))
         body = self.truthy(self.ev1(lam.body, s), s)
-        q = smt.ForAll(vs, body) if kind == 'forall' else smt.Exists(vs, body)
+        q = smt.ForAll(vs, body) if kind.startswith('forall') else smt.Exists(vs, body)
         return [(VBool(q), st)]
 
     def concrete_items(self, v, st):
@@ -527,6 +556,9 @@ class Exec(Engine):
                 return [StrV_(k) for k in o.entries]
             if isinstance(o, HList) and o.seq.lit is not None and len(o.seq.lit[1]) == 0:
                 return []
+            if isinstance(o, HRecSeq) and o.n.lit is not None and o.n.lit[1] <= 8:
+                from . import reclists
+                return [reclists.element_view(self, v, o, IntV(j), st) for j in range(o.n.lit[1])]
         if isinstance(v, VPy) and isinstance(v.obj, (list, tuple, range, set, frozenset, dict)):
             return [self.lift(x, st) for x in v.obj]
         if isinstance(v, VSeq) and v.t.lit is not None and len(v.t.lit[1]) == 0:
@@ -577,6 +609,24 @@ class Exec(Engine):
                 return [(self.lift(r, st), st)]
             if isinstance(obj, (types.FunctionType, types.MethodType)) and getattr(obj, '__module__', '').startswith('xdoctest'):
                 return self.call_repo_function(obj, args, kwargs, st, node)
+            if isinstance(obj, type) and issubclass(obj, tuple) and hasattr(obj, '_fields') and obj.__name__ in C.RECORDS:
+                # namedtuple with a record declaration: an immutable record
+                vals = dict(zip(obj._fields, args))
+                vals.update(kwargs)
+                fields = {}
+                for f, fty in C.RECORDS[obj.__name__].items():
+                    pt = parse_type(fty)
+                    v = vals[f]
+                    if pt[0] == 'val' and not isinstance(v, VVal):
+                        self.ctx.sort('Val')
+                        if isinstance(v, VBool):
+                            v = VVal(self.model_app('val_of_bool', [v.t], 'Val'))
+                        elif isinstance(v, VStr):
+                            v = VVal(self.model_app('val_of_str', [v.t], 'Val'))
+                        elif isinstance(v, VNone):
+                            v = VVal(self.val_const(None))
+                    fields[f] = v
+                return [(st.alloc(HInst(obj.__name__, fields)), st)]
             if isinstance(obj, type) and obj.__module__.startswith('xdoctest'):
                 return self.construct(obj, args, kwargs, st, node)
             if isinstance(obj, types.FunctionType) and getattr(obj, '__module__', '').startswith('specs'):
@@ -592,7 +642,8 @@ class Exec(Engine):
             o = st.heap[recv.loc]
             if isinstance(o, (HList, HPyList, HObjList, HRecSeq, HIdxList)):
                 return self.call_model('list.' + name, [recv] + args, kwargs, st, node)
-            if isinstance(o, (HDict, HMap)):
+            from . import flagdict as _fd
+            if isinstance(o, (HDict, HMap, _fd.HFlagDict)):
                 return self.call_model('dict.' + name, [recv] + args, kwargs, st, node)
             if isinstance(o, HSet):
                 return self.call_model('set.' + name, [recv] + args, kwargs, st, node)
@@ -602,6 +653,20 @@ class Exec(Engine):
             return self.call_model('list.' + name, [recv] + args, kwargs, st, node)
         if isinstance(recv, VTuple):
             return self.call_model('tuple.' + name, [recv] + args, kwargs, st, node)
+        from . import flagdict
+        if isinstance(recv, flagdict.VFlags):
+            if name == 'set' and len(args) == 2 and isinstance(args[0], VStr):
+                return [(flagdict.VFlags(flagdict.store(recv.present, args[0].t, TRUE),
+                                         flagdict.store(recv.bval, args[0].t, self.truthy(args[1], st))), st)]
+            if name == 'has' and len(args) == 1:
+                return [(VBool(flagdict.sel(recv.present, args[0].t)), st)]
+            raise Undecided('method %s of a flags value' % name, node)
+        if isinstance(recv, flagdict.VSetVal):
+            if name == 'with_' and len(args) == 1:
+                return [(flagdict.VSetVal(flagdict.store(recv.arr, args[0].t, TRUE)), st)]
+            if name == 'without' and len(args) == 1:
+                return [(flagdict.VSetVal(flagdict.store(recv.arr, args[0].t, FALSE)), st)]
+            raise Undecided('method %s of a set value' % name, node)
         if isinstance(recv, VVal):
             self.trusted_used.add('opaque-object-method: a method call on an opaque value (config.get ...) returns an '
                                   'unconstrained value, raises nothing and has no effect on the verified state')
@@ -666,7 +731,9 @@ class Exec(Engine):
     def call_repo_function(self, fn, args, kwargs, st, node, qual=None):
         if qual is None:
             qual = '%s:%s' % (fn.__module__, fn.__qualname__)
-        c = C.CONTRACTS.get(qual)
+        # a contract may select which view (contract variant 'f#name') of a callee it reasons with
+        use = self.cur_contract.opts.get('use', {}) if self.cur_contract else {}
+        c = C.CONTRACTS.get(use.get(qual, qual))
         if c is not None:
             return self.apply_contract(c, fn, args, kwargs, st, node)
         inline = set(self.cur_contract.opts.get('inline', ())) if self.cur_contract else set()
@@ -963,6 +1030,30 @@ class Exec(Engine):
 
     def havoc_expr(self, expr, bound, st, node, base='hv'):
         """Havoc the object / field denoted by an access path such as 'self.text' or 'xs'."""
+        if expr.startswith('obj(') and expr.endswith(')'):
+            # the object the path denotes is mutated in place (the path itself is not re-assigned)
+            s0 = self.clause_state(st, bound)
+            self.pure += 1
+            try:
+                v = self.ev1(ast.parse(expr[4:-1], mode='eval').body, s0)
+            finally:
+                self.pure -= 1
+            self.havoc_object(v, st, base, node)
+            return
+        if expr.startswith('flags(') and expr.endswith(')'):
+            # only the flag entries of a state dict change: the REQUIRES set object and its members stay
+            from . import flagdict
+            s0 = self.clause_state(st, bound)
+            self.pure += 1
+            try:
+                v = self.ev1(ast.parse(expr[6:-1], mode='eval').body, s0)
+            finally:
+                self.pure -= 1
+            o = st.heap[v.loc]
+            P = self.ctx.fresh(base + '_has', flagdict.ARR)
+            st.assume(Eq(flagdict.sel(P, flagdict.REQ), flagdict.sel(o.present, flagdict.REQ)))
+            st.heap[v.loc] = flagdict.HFlagDict(P, self.ctx.fresh(base + '_flag', flagdict.ARR), o.req)
+            return
         n = ast.parse(expr, mode='eval').body
         s = self.clause_state(st, bound)
         self.pure += 1
@@ -1007,6 +1098,12 @@ class Exec(Engine):
                 st.heap[v.loc] = HInst(o.cls, {k: self.fresh_like(x, '%s_%s' % (base, k), st) for k, x in o.fields.items()}, o.view)
                 return
             if isinstance(o, HOpaque):
+                return
+            from . import flagdict
+            if isinstance(o, flagdict.HFlagDict):
+                self.havoc_object(o.req, st, base + '_req', node)
+                st.heap[v.loc] = flagdict.HFlagDict(self.ctx.fresh(base + '_has', flagdict.ARR),
+                                                    self.ctx.fresh(base + '_flag', flagdict.ARR), o.req)
                 return
         raise Undecided('cannot havoc %r' % (v,), node)
 
@@ -1195,12 +1292,20 @@ class Exec(Engine):
             return self.unpack(v, n, st, node)
         if isinstance(v, VExcInfo):
             return v.items(n)
+        if isinstance(v, VRef) and isinstance(st.heap.get(v.loc), HInst) and st.heap[v.loc].cls in C.RECORDS \
+                and len(C.RECORDS[st.heap[v.loc].cls]) == n and st.heap[v.loc].cls in C.TUPLE_RECORDS:
+            o = st.heap[v.loc]
+            return [o.fields[f] for f in C.RECORDS[o.cls]]
         raise Undecided('cannot unpack %r into %d targets' % (v, n), node)
 
     def store_subscript(self, owner, key, v, st, node):
         if isinstance(owner, VRef):
             o = st.heap[owner.loc]
             if isinstance(o, HOpaque):
+                return
+            from . import flagdict
+            if isinstance(o, flagdict.HFlagDict):
+                flagdict.setitem(self, owner, o, key, v, st, node)
                 return
             if isinstance(o, HDict) and not o.entries and isinstance(key, VRef):
                 # a dict keyed by objects (timings per example): write-only as far as the engine is concerned
@@ -1569,7 +1674,8 @@ class Exec(Engine):
                 return out
         for v, s in self.ev(it_node, st):
             if isinstance(v, Raised):
-                raise Undecided('iterable raises', it_node)
+                out.append((('raise', v.exc), s))
+                continue
             items = self.concrete_items(v, s)
             if items is not None:
                 out.append((('concrete', items), s))
@@ -1594,6 +1700,9 @@ class Exec(Engine):
         spec = self.cur_contract.loops.get(ordn) if self.cur_contract and self.depth0(st) else None
         out = []
         for dom, s in self.iter_domain(node.iter, st):
+            if dom[0] == 'raise':
+                out.append(('raise', dom[1], s))
+                continue
             if dom[0] == 'concrete' and spec is None:
                 out.extend(self.unroll_for(node, dom[1], s))
             else:
@@ -1716,13 +1825,13 @@ class Exec(Engine):
             st.heap[owner.loc] = HInst(o.cls, f, o.view)
         for expr in sorted(muts):
             try:
-                n = ast.parse(expr, mode='eval').body
+                n = ast.parse(expr[expr.index('(') + 1:-1] if expr.startswith(('obj(', 'flags(')) else expr, mode='eval').body
             except SyntaxError:
                 continue
             if isinstance(n, ast.Name) and (n.id in names or n.id in spec.types):
                 continue    # rebinding already produced a fresh object
             try:
-                if isinstance(n, ast.Attribute):
+                if isinstance(n, ast.Attribute) or expr.startswith(('obj(', 'flags(')):
                     self.havoc_expr(expr, dict(st.frames[st.cur]), st, node, base='loop')
                     continue
                 self.pure += 1
@@ -2171,6 +2280,22 @@ class Exec(Engine):
         allowed_fields = set()
         allowed_globals = set()
         for expr in c.modifies:
+            if expr.startswith('flags(') and expr.endswith(')'):
+                expr = expr[6:-1]       # the dict object (its REQUIRES set is a separate heap object and stays framed)
+            if expr.startswith('obj(') and expr.endswith(')'):
+                expr = expr[4:-1]
+                es0 = self.clause_state(entry, params)
+                self.pure += 1
+                try:
+                    v0 = self.ev1(ast.parse(expr, mode='eval').body, es0)
+                finally:
+                    self.pure -= 1
+                if isinstance(v0, VRef):
+                    allowed_locs.add(v0.loc)
+                    o0_ = entry.heap.get(v0.loc)
+                    if type(o0_).__name__ == 'HFlagDict':
+                        allowed_locs.add(o0_.req.loc)
+                continue
             if expr in c.globals:
                 key = tuple(expr.rsplit('.', 1))
                 allowed_globals.add(key)
@@ -2243,6 +2368,10 @@ class Exec(Engine):
                 self.oblige('frame', name + tag, s, Eq(o0.seq, o1.seq), fnode, note='list not in modifies')
             elif isinstance(o0, HSet) and isinstance(o1, HSet):
                 self.oblige('frame', name + tag, s, Eq(o0.arr, o1.arr), fnode, note='set not in modifies')
+            elif type(o0).__name__ == 'HFlagDict' and type(o1).__name__ == 'HFlagDict':
+                from . import flagdict
+                g = And(self.v_eq(flagdict.flags_value(o0), flagdict.flags_value(o1), s), BoolV(o0.req.loc == o1.req.loc))
+                self.oblige('frame', name + tag, s, g, fnode, note='state dict not in modifies')
             elif isinstance(o0, HMap) and isinstance(o1, HMap):
                 self.oblige('frame', name + tag, s, And(Eq(o0.present, o1.present), Eq(o0.vals, o1.vals)), fnode)
             elif isinstance(o0, HDict) and isinstance(o1, HDict):
